@@ -38,6 +38,8 @@ def check(repo, col, tier):
     from . import c02 as _c02
     col.rule("R-C15-currents", "membrane currents are computed at and accumulated into the rows of their channel", 9)
     _c02.channel_current_rows(repo, col, "R-C15-currents")
+    col.rule("R-C15-scheme", "each solver name runs its scheme: backward Euler with dt, Crank-Nicolson as 2*V(dt/2) - V, forward Euler explicitly", 10)
+    c01_solver._scheme(repo, col, "R-C15-scheme")
     col.rule("R-C15-schedule", "the level sweeps of the custom solvers triangulate and back-substitute every level with its own accessors", 8)
     c01_solver._schedule(repo, col, "R-C15-schedule")
     col.rule("R-C15-ends", "branch-point edges attach at each branch's own first / last compartment", 4)
